@@ -12,7 +12,7 @@ from ..hist import run_dfs, fork_call
 from . import decl
 
 VALID = ['B1', 'B2', 'N1', 'S', 'V', 'P', 'NB', 'x1', 'x2', 'x3', 'y1',
-         'x1/y1', 'x1/y0', 'x1²', 'vt', 'st', 'n1', 'n1/x0', 'x1dup', 'vt2', '?query']
+         'x1/y1', 'x1/y0', 'x1²', 'vt', 'st', 'n1', 'n1/x0', 'x1dup', 'vt2', 'vusurp', 'x1pad', '?query']
 INVALID = ['!dupsym', '!dupsym2', '!empty', '!nonstr', '!S2', '!V2',
            '!B1again', '!othertype', '!otherdim', '!wrongbase',
            '!wrongcount', '!B3dupref', '!derivebase', '!NB2', '!P2',
@@ -98,8 +98,10 @@ def run(tier, seed):
                    '!subdef',
                    'xnone', '!zero', '!zeroterm', 'Q1', 'qnone', 'S12',
                    'x1^12', '?query'], 5 if tier == 'thorough' else 4, [ROOTS[0]]))
-    plans.append((['xnone', 'xnone/y0', 'x1/y1', '!dupsym', '?query'], 4,
+    plans.append((['xnone', 'xnone/y0', 'x1/y1', 'x1/y0', 'vusurp', '!dupsym',
+                   '?query'], 4,
                   [ROOTS[2]]))
+    plans.append((['x1', 'x1pad', 'x2', '?query', '!dupsym'], 4, [ROOTS[1]]))
     for names, depth, roots in plans:
         for root in roots:
             n, nfp = explore(names, depth, total, root=root)
